@@ -46,9 +46,9 @@ Print Assumptions C09_irreversible.
 Theorem C09_involutive_refuted_flags : refutes w_flag.
 Proof. exact refuted_flags. Qed.
 Print Assumptions C09_involutive_refuted_flags.
-Theorem C09_involutive_refuted_deferrable : refutes w_deferrable.
-Proof. exact refuted_deferrable. Qed.
-Print Assumptions C09_involutive_refuted_deferrable.
+Theorem C09_involutive_refuted_table_index : refutes w_index.
+Proof. exact refuted_table_index. Qed.
+Print Assumptions C09_involutive_refuted_table_index.
 Theorem C09_involutive_refuted_alter : refutes w_alter.
 Proof. exact refuted_alter. Qed.
 Print Assumptions C09_involutive_refuted_alter.
@@ -72,22 +72,26 @@ Print Assumptions C09_undo.
 
 (* ------------------------------------------------------------------ non-vacuity *)
 
+(* deferrable=False (repaired by ea71f11) is inside the class *)
+Example C09_deferrable_false_in_class : roundtrip_safe w_deferrable = true.
+Proof. exact deferrable_false_in_class. Qed.
+
 Example C09_class_nonvacuous : forallb roundtrip_safe_top nv_ops = true /\ exists d, reverse_ops nv_ops = Ok d.
 Proof. exact nv_ops_in_class. Qed.
 
 Open Scope N_scope.
 Definition nv_up : list top :=
-  [ Leaf (CreateTableOp (mkT [116] None [mkCol [97] 1 false None None; mkCol [122] 1 true None None]
-                             [CPk None [116] None [[97]]; CUq (Some [117]) [116] None [[122]] (Some false) None] (Some [99]) [] 0) None true);
+  [ Leaf (CreateTableOp (mkT [116] None [mkCol [97] 1 false None None false false; mkCol [122] 1 true None None true false]
+                             [CPk None [116] None [[97]] 0; CUq (Some [117]) [116] None [[122]] (Some false) None 6] [] (Some [99]) [] 0) None false);
     ModifyTableOps [116] None
-      [ AddColumnOp [116] (mkCol [98] 2 true (Some 3) None) None;
+      [ AddColumnOp [116] (mkCol [98] 2 true (Some 3) None false true) None;
         AlterColumnOp (mkAC [116] [98] None (Some 2) (SetTo (Some 3)) (Some true) None (Some false) (SetTo (Some [120])) (SetTo None) (Some [100]) (Some 4) 0);
-        AddConstraintOp (CreateForeignKeyOp (Some [102]) [116] [116] [[100]] [[97]] None None (mkFkO (Some [67]) None None None (Some true)));
+        AddConstraintOp (CreateForeignKeyOp (Some [102]) [116] [116] [[100]] [[97]] None None (mkFkO (Some [67]) None None None (Some false)) 0);
         CreateIndexOp (mkCI (Some [105]) [116] [IxCol [100]; IxText 5] None true None 0);
         CreateTableCommentOp [116] (Some [110]) (Some [99]) None;
-        DropColumnOp [116] [122] None 0 (Some ([116], mkCol [122] 1 true None None, None));
-        DropConstraintOp (Some [117]) [116] (Some TyUnique) None (Some (CreateUniqueConstraintOp (Some [117]) [116] [[122]] None None None)) ];
-    Leaf (CreateTableOp (mkT [117] (Some [115]) [mkCol [97] 1 false None None] [] None [] 0) None true) ].
+        DropColumnOp [116] [122] None 0 (Some ([116], mkCol [122] 1 true None None true false, None));
+        DropConstraintOp (Some [117]) [116] (Some TyUnique) None (Some (CreateUniqueConstraintOp (Some [117]) [116] [[122]] None (Some false) None 6)) ];
+    Leaf (CreateTableOp (mkT [117] (Some [115]) [mkCol [97] 1 false None None false false] [] [] None [] 0) None true) ].
 Example C09_undo_nonvacuous : wf_db [] /\ undoable_ops nv_up [] = true /\
   (forall d B, reverse_ops nv_up = Ok d -> apply_ops nv_up [] = Some B -> undoable_ops d B = true).
 Proof.
